@@ -4,6 +4,7 @@ import PV.Model.SCC
 import PV.Model.Grouping
 import PV.Model.TED
 import PV.Model.Gate
+import PV.Model.CFG
 /-!
 Line-protocol driver: runs the executable models on the cases the harness also ran on the
 implementation.  Core-only imports (links as a native executable).
@@ -149,6 +150,59 @@ def runGate (t : Array String) : String :=
   let r : PV.Gate.Results := { cx := cx, dead := dead, clones := optN t[9]!, cycles := optN t[10]!, mock := optN t[11]! }
   if PV.Gate.exitZero f r then "1" else "0"
 
+open PV.CFG in
+mutual
+  /-- parse one statement at `pos`; returns the statement and the next position -/
+  partial def parseStmt (t : Array String) (pos : Nat) : Stmt × Nat :=
+    let k := t[pos]!
+    let s := (tokI t[pos+1]!).toNat
+    let e := (tokI t[pos+2]!).toNat
+    let p := pos + 3
+    match k with
+    | "s" | "ret" =>
+      let hasComp := tokB t[p]!
+      let n := (tokI t[p+1]!).toNat
+      let comp := (List.range n).map fun i => tokB t[p+2+i]!
+      (if k == "s" then .simple s e comp hasComp else .ret s e comp hasComp, p + 2 + n)
+    | "brk" => (.brk s e, p)
+    | "cont" => (.cont s e, p)
+    | "raise" => (.raise s e, p)
+    | "if" => let (a, p) := parseList t p; let (b, p) := parseList t p; (.ite s e a b, p)
+    | "elif" => let (a, p) := parseList t p; let (b, p) := parseList t p; (.elifc s e a b, p)
+    | "else" => let (a, p) := parseList t p; (.elsec s e a, p)
+    | "loop" => let (a, p) := parseList t p; let (b, p) := parseList t p; (.loop s e a b, p)
+    | "try" =>
+      let (a, p) := parseList t p; let (b, p) := parseList t p; let (c, p) := parseList t p; let (d, p) := parseList t p
+      (.try_ s e a b c d, p)
+    | "handler" => let (a, p) := parseList t p; (.handler s e a, p)
+    | "with" => let (a, p) := parseList t p; (.with_ s e a, p)
+    | "match" => let (a, p) := parseList t p; (.match_ s e a, p)
+    | "case" => let (a, p) := parseList t p; (.case_ s e a, p)
+    | "def" => let (a, p) := parseList t p; (.def_ s e a, p)
+    | "class" => let (a, p) := parseList t p; (.class_ s e a, p)
+    | _ => (.simple s e [] false, p)
+  /-- `[ n item…` -/
+  partial def parseList (t : Array String) (pos : Nat) : List Stmt × Nat :=
+    let n := (tokI t[pos+1]!).toNat
+    let rec go (k : Nat) (p : Nat) (acc : List Stmt) : List Stmt × Nat :=
+      match k with
+      | 0 => (acc.reverse, p)
+      | k' + 1 => let (x, p') := parseStmt t p; go k' p' (x :: acc)
+    go n (pos + 2) []
+end
+
+def natsSorted (l : List Nat) : String := joinWith "," ((l.toArray.qsort (· < ·)).toList.map toString)
+
+/-- `cfg <f|c|m> s e <list>` → `complexity|s-e-c;…|live lines|dead lines` -/
+def runCfg (t : Array String) : String :=
+  if t.size < 5 then "bad-op" else
+  let k : PV.CFG.Kind := if t[0]! == "f" then .func else if t[0]! == "c" then .cls else .module
+  let (body, _) := parseList t 3
+  let st := PV.CFG.build k (tokI t[1]!).toNat (tokI t[2]!).toNat body
+  let fs := (PV.CFG.findings st).toArray.qsort (fun a b => a.s < b.s || (a.s == b.s && a.e < b.e))
+  let fstr := joinWith ";" (fs.toList.map fun f => s!"{f.s}-{f.e}-{if f.critical then "c" else "w"}")
+  s!"{PV.CFG.complexity st}|{fstr}|{natsSorted (PV.CFG.liveLines st)}|{natsSorted (PV.CFG.deadLines st)}"
+
 def step (line : String) : String :=
   let parts := (line.splitOn " ").filter (· ≠ "")
   match parts with
@@ -161,6 +215,7 @@ def step (line : String) : String :=
     | "group" => runGroup t
     | "ted" => runTed t
     | "gate" => runGate t
+    | "cfg" => runCfg t
     | _ => "bad-op"
 
 partial def loop (h : IO.FS.Stream) (out : IO.FS.Stream) : IO Unit := do
